@@ -291,7 +291,12 @@ impl DomainRouter {
         let mut router = matchit::Router::new();
         let mut has_errored = false;
         let mut pattern2guard = HashMap::new();
-        for guard in aux.domain_guard2locations.keys() {
+        // What `matchit` answers to an insertion depends on what is already in the router.
+        // The generated code inserts the patterns in the order of a `BTreeMap<DomainGuard, _>`:
+        // "if it works now, it'll work at runtime too" holds only if we try them in that same order.
+        let guards: std::collections::BTreeSet<&DomainGuard> =
+            aux.domain_guard2locations.keys().collect();
+        for guard in guards {
             let pattern = guard.matchit_pattern();
             pattern2guard.insert(pattern.clone(), guard);
             let Err(e) = router.insert(pattern, ()) else {
